@@ -55,6 +55,7 @@ type ReqIO struct {
 	status      int
 	snapshot    http.Header
 	out         []byte
+	flushed     int // response bytes that have left net/http's buffer (Flush, 4 KiB overflow, handler return)
 	consumed    int // response bytes the client has taken (flow control)
 	window      int // 0 = unlimited
 	trailer     http.Header
@@ -80,6 +81,7 @@ type ReqIO struct {
 	mClosed   bool
 	mReturned bool
 	mOut      int
+	mFlushed  int
 	mConsumed int
 	mWindow   int
 	mReadPark bool // a goroutine is parked in Body.Read
@@ -109,6 +111,7 @@ func (q *ReqIO) sync() {
 	q.mIn, q.mInEOF, q.mInErr = len(q.in), q.inEOF, q.inErr != nil
 	q.mAborted, q.mWBroken, q.mClosed, q.mReturned = q.aborted, q.wbroken, q.closed, q.returned
 	q.mOut, q.mConsumed, q.mWindow = len(q.out), q.consumed, q.window
+	q.mFlushed = q.flushed
 }
 
 //go:norace
@@ -260,6 +263,8 @@ func (w simRW) Flush() {
 	q := w.q
 	q.mu.Lock()
 	q.snapshotLocked(200)
+	q.flushed = len(q.out)
+	q.sync()
 	q.mu.Unlock()
 }
 
@@ -297,6 +302,9 @@ func (q *ReqIO) write(p []byte, label string) (int, error) {
 	q.snapshotLocked(200)
 	q.writes++
 	q.out = append(q.out, p...)
+	if q.hijacked || len(q.out)-q.flushed >= 4096 {
+		q.flushed = len(q.out) // a raw connection has no buffer; net/http's overflows at 4 KiB
+	}
 	q.sim.Note("write " + itoa(len(p)))
 	return len(p), nil
 }
@@ -341,6 +349,7 @@ func (q *ReqIO) finish() {
 	q.mu.Lock()
 	defer q.mu.Unlock()
 	q.returned = true
+	q.flushed = len(q.out)
 	if !q.hijacked {
 		// net/http: if nothing was written the header goes out now with all
 		// keys; otherwise declared and prefixed trailers are collected.
